@@ -36,7 +36,7 @@ def run(tier, replay=None):
     # pairs (re-binding of the alias, mutation): the place where wrong sharing shows - kept apart from the rest of the pairs so
     # that the sample always holds many of them (all of them in thorough)
     REBIND = {"alias", "clone", "filterto", "mapto", "litfrom", "mapfrom", "joinalias", "malias", "mclone", "mlitfrom"}
-    MUTATE = {"push", "reverse", "clear", "inner", "remove", "set", "opset", "opsub", "join", "mset", "mopset", "msub", "replace", "mremove", "mclear"}
+    MUTATE = {"push", "reverse", "clear", "inner", "remove", "set", "opset", "opsub", "seteq", "join", "mset", "mopset", "msub", "replace", "mremove", "mclear"}
     share = [c for c in l2c if c["hist"][0]["op"] in REBIND and c["hist"][1]["op"] in MUTATE]
     bs = 2500 if tier == "quick" else len(share)
     if len(share) > bs:
